@@ -238,7 +238,8 @@ theorem merge_lemma (h : M.Laws) (p : Op → Bool) (d0 : S) (seg pend : List Op)
     (hP2 : ∀ e ∈ seg, p e = false → ∀ o ∈ pend, M.Indep e o) :
     M.Valid (seg.foldl M.apply d0) pend ∧
       pend.foldl M.apply (seg.foldl M.apply d0) =
-        (seg.filter (fun x => !p x)).foldl M.apply ((seg.filter p ++ pend).foldl M.apply d0) := by
+        (seg.filter (fun x => !p x)).foldl M.apply ((seg.filter p ++ pend).foldl M.apply d0) ∧
+      M.Valid ((seg.filter p ++ pend).foldl M.apply d0) (seg.filter (fun x => !p x)) := by
   obtain ⟨hv, hf⟩ := reorder_front h p seg d0 hseg hP1
   rw [Valid_append] at hv hown
   rw [List.foldl_append] at hf
@@ -246,10 +247,11 @@ theorem merge_lemma (h : M.Laws) (p : Op → Bool) (d0 : S) (seg pend : List Op)
     intro a ha b hb
     have := List.mem_filter.1 ha
     exact hP2 a this.1 (by simpa using this.2) b hb
-  obtain ⟨c1, _, c3⟩ := commute_lists h _ _ _ hv.2 hown.2 hi
+  obtain ⟨c1, c2, c3⟩ := commute_lists h _ _ _ hv.2 hown.2 hi
   rw [hf] at c1 c3
-  refine ⟨c1, ?_⟩
-  rw [c3, List.foldl_append]
+  refine ⟨c1, ?_, ?_⟩
+  · rw [c3, List.foldl_append]
+  · rw [List.foldl_append]; exact c2
 
 end Sem
 
@@ -364,7 +366,9 @@ theorem key_aux (h : M.Laws) (c : Nat) (T seg pend : List Op)
     M.Valid ((T ++ seg).foldl M.apply M.init) pend ∧
       pend.foldl M.apply ((T ++ seg).foldl M.apply M.init) =
         (seg.filter (fun b => M.author b ≠ c)).foldl M.apply
-          ((T ++ seg.filter (fun b => M.author b = c) ++ pend).foldl M.apply M.init) := by
+          ((T ++ seg.filter (fun b => M.author b = c) ++ pend).foldl M.apply M.init) ∧
+      M.Valid ((T ++ seg.filter (fun b => M.author b = c) ++ pend).foldl M.apply M.init)
+        (seg.filter (fun b => M.author b ≠ c)) := by
   have hcd := valid_pairwise_CD h hlog
   have hseg := ((Valid_append _ _ _).1 hlog).2
   have hown : M.Valid (T.foldl M.apply M.init) (seg.filter (fun b => M.author b = c) ++ pend) := by
@@ -408,19 +412,22 @@ theorem key_aux (h : M.Laws) (c : Nat) (T seg pend : List Op)
     rcases valid_refs h hlog (List.mem_append_right _ he) hr with h0 | ⟨x, hx, hxc⟩
     · exact h.H0 i h0
     · exact hlp x hx o ho i hxc hio
-  obtain ⟨m1, m2⟩ := merge_lemma h (fun b => decide (M.author b = c))
+  obtain ⟨m1, m2, m3⟩ := merge_lemma h (fun b => decide (M.author b = c))
     (T.foldl M.apply M.init) seg pend hseg hown hP1 hP2
   rw [List.foldl_append]
-  refine ⟨m1, ?_⟩
-  rw [m2]
-  simp only [decide_not, List.append_assoc, List.foldl_append]
+  refine ⟨m1, ?_, ?_⟩
+  · rw [m2]
+    simp only [decide_not, List.append_assoc, List.foldl_append]
+  · simpa only [decide_not, List.append_assoc, List.foldl_append] using m3
 
 /-- Key consequence of the invariant: the pending operations of any client are valid on top of
-the full server log, and pulling the missing foreign operations yields `log ++ pending`. -/
+the full server log, pulling the missing foreign operations yields `log ++ pending`, and those
+foreign operations are valid on top of the client's current state. -/
 theorem key (h : M.Laws) {s : Sys S Op} (inv : M.Inv s) (c : Nat) :
     M.Valid (s.log.foldl M.apply M.init) (s.clients c).pending ∧
       (s.clients c).pending.foldl M.apply (s.log.foldl M.apply M.init) =
-        (M.news s c).foldl M.apply ((M.view s c).foldl M.apply M.init) := by
+        (M.news s c).foldl M.apply ((M.view s c).foldl M.apply M.init) ∧
+      M.Valid ((M.view s c).foldl M.apply M.init) (M.news s c) := by
   have hl := List.take_append_drop (s.clients c).cp s.log
   have := key_aux h c (s.log.take (s.clients c).cp) (s.log.drop (s.clients c).cp)
     (s.clients c).pending (by rw [hl]; exact inv.log_valid) (inv.view_valid c)
@@ -551,7 +558,7 @@ theorem inv_pull (h : M.Laws) {s : Sys S Op} (inv : M.Inv s) (c : Nat) :
     simp [view]
   have hvo : ∀ x, x ≠ c → M.view (M.pullSys s c) x = M.view s x :=
     fun x hx => view_congr rfl (upd_other _ _ hx)
-  obtain ⟨k1, k2⟩ := key h inv c
+  obtain ⟨k1, k2, _⟩ := key h inv c
   constructor
   · intro x
     by_cases hx : x = c
@@ -626,6 +633,14 @@ theorem server_fold (h : M.Laws) {s : Sys S Op} (hr : M.Reachable s) (c : Nat)
     (hp : (s.clients c).pending = []) (hc : (s.clients c).cp = s.log.length) :
     (s.clients c).st = s.log.foldl M.apply M.init := by
   rw [replica_eq_fold h hr c, hp, hc]; simp
+
+/-- **No pull step fails.** Every foreign operation a client is about to pull is enabled at the
+moment the client applies it (the client applies `news s c` in order on top of its state). -/
+theorem pull_valid (h : M.Laws) {s : Sys S Op} (hr : M.Reachable s) (c : Nat) :
+    M.Valid (s.clients c).st (M.news s c) := by
+  have inv := inv_reachable h hr
+  rw [inv.st_eq c]
+  exact (key h inv c).2.2
 
 /-- **Strong convergence.** Two quiescent replicas are equal. -/
 theorem converge_quiescent (h : M.Laws) {s : Sys S Op} (hr : M.Reachable s) (c₁ c₂ : Nat)
